@@ -20,6 +20,12 @@ def scenarios(rnd, tier):
             out.append(c03.gen_line(rnd, k, full=True))
     for _ in range(n):
         out.append(c05.random_history(rnd))
+    # inputs of the coverage-guided corpus through classification, all parsers and the EAPOL extraction
+    pool = [e for e in fw.parse_corpus() if len(e[1]) <= 400]
+    for rt, b in rnd.sample(pool, min(len(pool), 300 if tier == "quick" else 3000)):
+        out.append("%s %d %s" % (rnd.choice(["mp", "mp", "eap", "cls"]), rt, b.hex() or "-"))
+    # systematic short call sequences on every generator kind (create, up to two edits, dump, free)
+    out += c03.api_lines(rnd, 20 if tier == "quick" else 400)
     # every history of up to two operations over the C05 alphabet, a sample of length three, and histories that
     # drain the list completely before the release (an emptied list must not be released twice or kept)
     import itertools
